@@ -2,9 +2,11 @@
 # sweep.sh <tier> <seed-from> <seed-to> [props...]: soundness sweep on the unchanged tree; prints one line per run.
 TIER=$1; A=$2; B=$3; shift 3
 PROPS=${@:-$(python3 -c "import json;print(' '.join(c['property_id'] for c in json.load(open('MANIFEST.json'))['checks']))")}
+if [ -n "${SWEEP_LOAD:-}" ]; then for i in $(seq $SWEEP_LOAD); do (timeout 6h sh -c 'while :; do :; done' &) ; done; echo "background load: $SWEEP_LOAD busy loops"; fi
 ./check --setup > setup.log 2>&1 || { echo "SETUP FAILED"; tail -5 setup.log; }
 for s in $(seq $A $B); do for p in $PROPS; do
   t0=$(date +%s); VERIF_SEED=$s ./check $p --tier $TIER > run_${p}_${s}.log 2>&1; rc=$?; t1=$(date +%s)
   echo "seed=$s $p rc=$rc $((t1-t0))s $(grep -c '^VIOLATION' run_${p}_${s}.log) violations"
   [ $rc -ne 0 ] && grep -A1 '^VIOLATION' run_${p}_${s}.log | head -6
 done; done
+pkill -f "while :; do :; done" 2>/dev/null
